@@ -176,7 +176,7 @@ ACtxAt(idx) ==
 
 (* apair: every pair of 7-bit characters between two tokens with a line after it, alone, inside a string and
    inside a comment (the context is the most significant part of the index: EXHLEN contexts are exhaustive) *)
-APairCtx == << <<"e ", "\ne 1">>, <<"", "">>, <<"\"", "\"\ne">>, <<"//", "\ne">> >>
+APairCtx == << <<"e ", "\ne">>, <<"", "">>, <<"\"", "\"\ne">>, <<"//", "\ne">> >>
 APairBlock == 128 * 128
 APairSize == Len(APairCtx) * APairBlock
 APairAt(idx) ==
